@@ -123,3 +123,249 @@ Proof.
   destruct (Core u p' Hu ltac:(qlra) ltac:(right; apply Qcle_refl)) as [M2 L2].
   revert M1 L1 M2 L2. generalize (gl u p) (gl u u) (gl u p'). intros x y z M1 L1 M2 L2. split; qlra.
 Qed.
+
+(** ** The step with load matching, one electricity source *)
+From Cteepbd Require Import Model.Factors Proofs.StepFacts Proofs.ColFacts Proofs.PvFacts.
+
+Lemma qdiv_pos (x y : Qc) : 0 < x -> 0 < y -> 0 < x / y.
+Proof.
+  intros Hx Hy. toQ. absQ. cbn in *. unfold Qdiv. apply Qmult_lt_0_compat; [lra|apply Qinv_lt_0_compat; lra].
+Qed.
+
+(** f(p/u) * min(u, p) is g(u, p) *)
+Lemma fmatch_times_min u p : 0 < u -> 0 < p ->
+  (p / u + 1 / (p / u) - 1) / (p / u + 1 / (p / u)) * qmin u p = gl u p.
+Proof.
+  intros Hu Hp. assert (X : 0 < p / u) by (apply qdiv_pos; assumption).
+  rewrite (fmatch_formula (p / u) X). unfold gl, gnum, gden.
+  assert (E : (p / u * (p / u) - p / u + 1) / (p / u * (p / u) + 1) = (p * p - p * u + u * u) / (p * p + u * u)).
+  { field. split.
+    - intro K. pose proof (gden_pos u p Hu) as G. unfold gden in G. rewrite K in G. qlra.
+    - intro K. rewrite K in Hu. qlra. }
+  rewrite E. unfold Qcdiv. ring.
+Qed.
+
+Lemma gl_bounds u p : 0 < u -> 0 < p -> 0 <= gl u p /\ gl u p <= qmin u p.
+Proof.
+  intros Hu Hp. rewrite <- fmatch_times_min by assumption.
+  assert (X : 0 < p / u) by (apply qdiv_pos; assumption).
+  destruct (fmatch_range_pos (p / u) X) as [F1 F2].
+  apply scale_bounds; [exact F1|exact F2|qlra].
+Qed.
+
+Definition srl (c : Col) : StepR := (c, step_out false true c).
+
+Section StepLm.
+  Variables (c : Col) (d : Qc).
+  Hypothesis Hok : col_ok c.
+  Hypothesis Hel : el_col c.
+  Hypothesis Hd : 0 <= d.
+  Hypothesis Zpv : zg (c_pv c).
+  Hypothesis Zd : zg d.
+  Hypothesis C0 : c_chp c = 0.
+
+  (** used production of the step as a function of (u, p) *)
+  Definition usedl (u p : Qc) : Qc := if qltb 0 u then (if qltb 0 p then gl u p else 0) else 0.
+
+  Lemma used_tot_lm : s_used (srl c) = usedl (c_u c) (c_pv c) /\ s_used (srl (bump d c)) = usedl (c_u c) (c_pv c + d).
+  Proof.
+    destruct Hok, Hel as [T E]. destruct c as [a1 a2 a3 a4 a5 u ne cg pv chp ts ea]; cbn in * |-. subst.
+    unfold s_used, srl, bump, usedl. cbn [snd step_out so_used used_tot_f fmatch c_u c_pv c_chp c_ts c_ea].
+    unfold c_p. cbn [c_pv c_chp c_ts c_ea c_u].
+    replace (pv + 0 + 0 + 0) with pv by ring. replace (pv + d + 0 + 0 + 0) with (pv + d) by ring.
+    assert (Gen : forall p, 0 <= p ->
+      (let x := if qltb 0 u then p / u else 0 in if qleb x 0 then 1 else (x + 1 / x - 1) / (x + 1 / x)) * qmin u p
+      = if qltb 0 u then (if qltb 0 p then gl u p else 0) else 0).
+    { intros p P0. cbv zeta. destruct (qltb_spec 0 u) as [Hu|Hu].
+      - destruct (qltb_spec 0 p) as [Hp|Hp].
+        + assert (X : 0 < p / u) by (apply qdiv_pos; assumption).
+          destruct (qleb_spec (p / u) 0) as [K|K]; [exfalso; qlra|]. apply fmatch_times_min; assumption.
+        + assert (p = 0) by qlra. subst p. unfold Qcdiv. rewrite Qcmult_0_l. destruct (qleb_spec 0 0); [|exfalso; qlra]. qlra.
+      - destruct (qleb_spec 0 0); [|exfalso; qlra]. assert (u = 0) by qlra. subst u. qlra. }
+    split; apply Gen; qlra.
+  Qed.
+
+  Lemma usedl_mono u p p' : 0 <= u -> 0 <= p -> p <= p' -> usedl u p <= usedl u p' /\ usedl u p' - usedl u p <= p' - p /\ 0 <= usedl u p /\ usedl u p <= u.
+  Proof.
+    intros Hu Hp Hpp. unfold usedl. destruct (qltb_spec 0 u) as [U|U]; [|repeat split; qlra].
+    destruct (qltb_spec 0 p) as [P|P].
+    - destruct (qltb_spec 0 p') as [P'|P']; [|exfalso; qlra]. destruct (gl_mono u p p' U P Hpp) as [M L].
+      destruct (gl_bounds u p U P) as [B1 B2]. repeat split; try assumption. qlra.
+    - assert (p = 0) by qlra. subst p. destruct (qltb_spec 0 p') as [P'|P']; [|repeat split; qlra].
+      destruct (gl_bounds u p' U P') as [B1 B2]. repeat split; qlra.
+  Qed.
+
+  (** per source: the share of the only source is 1 when there is production, and nothing is used when there is none *)
+  Lemma only_source c0 : col_ok c0 -> el_col c0 -> c_chp c0 = 0 -> zg (c_pv c0) ->
+    s_used_src (srl c0) EL_INSITU = s_used (srl c0) /\ s_exp_src (srl c0) EL_COGEN = 0.
+  Proof.
+    intros Ok0 [T E] K Z. pose proof (ok_u c0 Ok0) as U0. destruct c0 as [a1 a2 a3 a4 a5 u ne cg pv chp ts ea]; cbn in * |-. subst.
+    unfold s_exp_src, s_used_src, s_used, s_psrc, srl.
+    cbn [fst snd step_out so_used so_src so_upv so_uchp used_tot_f used_src_f c_src c_pv c_chp c_u]. unfold c_p. cbn [c_pv c_chp c_ts c_ea].
+    replace (pv + 0 + 0 + 0) with pv by ring.
+    assert (Z0 : 0 / pv = 0) by (unfold Qcdiv; ring). rewrite Z0.
+    set (f := fmatch true _). clearbody f.
+    destruct Z as [->|G].
+    - destruct (qltb_spec (qfrac 1 1000) 0) as [P|P]; [exfalso; qlra|].
+      assert (M : qmin u 0 = 0) by qlra. rewrite M. split; ring.
+    - destruct (qltb_spec (qfrac 1 1000) pv) as [P|P]; [|exfalso; qlra].
+      rewrite (div_self pv) by (intro; subst; qlra). split; ring.
+  Qed.
+
+  (** the step facts, with load matching, when the on-site source is the only one of the carrier *)
+  Lemma step_lm_pv_only :
+    s_del_grid (srl (bump d c)) <= s_del_grid (srl c)
+    /\ s_exp (srl c) <= s_exp (srl (bump d c))
+    /\ s_exp_src (srl c) EL_COGEN = 0 /\ s_exp_src (srl (bump d c)) EL_COGEN = 0
+    /\ s_used_src (srl c) EL_INSITU <= s_used_src (srl (bump d c)) EL_INSITU
+    /\ s_del_grid (srl c) = c_u c - s_used_src (srl c) EL_INSITU
+    /\ s_del_grid (srl (bump d c)) = c_u c - s_used_src (srl (bump d c)) EL_INSITU.
+  Proof.
+    destruct used_tot_lm as [U U'].
+    destruct (usedl_mono (c_u c) (c_pv c) (c_pv c + d) (ok_u c Hok) (ok_pv c Hok) ltac:(qlra)) as (M & L & B0 & Bu).
+    assert (Zs : zg (c_pv c + d)) by (apply zg_add; assumption).
+    assert (Ok' : col_ok (bump d c)) by (destruct Hok; constructor; cbn; try assumption; qlra).
+    assert (El' : el_col (bump d c)) by (destruct Hel; split; assumption).
+    destruct (only_source c Hok Hel C0 Zpv) as [S1 X1].
+    destruct (only_source (bump d c) Ok' El' C0 Zs) as [S2 X2].
+    rewrite S1, S2, X1, X2. unfold s_del_grid, s_exp, s_u, s_p. cbn [fst srl bump c_u]. rewrite U, U'.
+    assert (P : c_p c = c_pv c) by (destruct Hel as [T E]; unfold c_p; rewrite T, E, C0; ring).
+    assert (P' : c_p (bump d c) = c_pv c + d) by (destruct Hel as [T E]; unfold c_p, bump; cbn [c_pv c_chp c_ts c_ea]; rewrite T, E, C0; ring).
+    rewrite P, P'. repeat split; try reflexivity; qlra.
+  Qed.
+End StepLm.
+
+(** ** A whole year with load matching, electricity produced on site only *)
+From Cteepbd Require Import Proofs.Breakdown Proofs.CtxFacts Proofs.ClosedForm Proofs.RerFacts.
+
+Section AnnualLm.
+  Variables (data : list Energy) (i : Z) (dv : list Qc) (cm : str).
+  Let l := filter (has_carrier ELECTRICIDAD) data.
+  Hypothesis Hn : nonneg_data data.
+  Hypothesis Hd : dom_data data.
+  Hypothesis Hdn : Forall (fun v => 0 <= v) dv.
+  Hypothesis Hdz : Forall zg dv.
+  Hypothesis Hne : l <> [].
+  Hypothesis Hnc : existsb (is_prod_src EL_COGEN) l = false.
+  Let x := mk_ctx ELECTRICIDAD true data.
+  Let x' := mk_ctx ELECTRICIDAD true (data ++ [EProd i EL_INSITU dv cm]).
+  Let dt (t : nat) : Qc := nth t dv 0.
+
+  Lemma lm_steps_x : cx_steps x = map (fun t => srl (col_at l t)) (seq 0 (num_steps_of l)).
+  Proof.
+    unfold x, mk_ctx, steps_of. cbn [cx_steps]. fold l. apply map_ext. intros t. unfold srl. f_equal. f_equal.
+    unfold prio_of. cbn [priorities forallb]. rewrite Hnc. now rewrite !andb_false_r.
+  Qed.
+
+  Lemma lm_steps_x' : cx_steps x' = map (fun t => srl (bump (dt t) (col_at l t))) (seq 0 (num_steps_of l)).
+  Proof.
+    unfold x', mk_ctx, steps_of. cbn [cx_steps]. rewrite (filter_data' data i dv cm), (steps_data' data i dv cm Hne).
+    apply map_ext. intros t. rewrite (col_data' data i dv cm t). fold l. unfold srl, dt. f_equal. f_equal.
+    unfold prio_of. cbn [priorities forallb]. rewrite !existsb_app, Hnc. cbn. now rewrite !andb_false_r.
+  Qed.
+
+  Lemma lm_ann_x f : ann x f = qsum (map (fun t => f (srl (col_at l t))) (seq 0 (num_steps_of l))).
+  Proof. unfold ann, vec. rewrite lm_steps_x, map_map. reflexivity. Qed.
+  Lemma lm_ann_x' f : ann x' f = qsum (map (fun t => f (srl (bump (dt t) (col_at l t)))) (seq 0 (num_steps_of l))).
+  Proof. unfold ann, vec. rewrite lm_steps_x', map_map. reflexivity. Qed.
+
+  Lemma lm_step t :
+    let c := col_at l t in
+    s_del_grid (srl (bump (dt t) c)) <= s_del_grid (srl c)
+    /\ s_exp (srl c) <= s_exp (srl (bump (dt t) c))
+    /\ s_exp_src (srl c) EL_COGEN = 0 /\ s_exp_src (srl (bump (dt t) c)) EL_COGEN = 0
+    /\ s_used_src (srl c) EL_INSITU <= s_used_src (srl (bump (dt t) c)) EL_INSITU
+    /\ s_del_grid (srl c) = c_u c - s_used_src (srl c) EL_INSITU
+    /\ s_del_grid (srl (bump (dt t) c)) = c_u c - s_used_src (srl (bump (dt t) c)) EL_INSITU.
+  Proof.
+    cbv zeta. apply step_lm_pv_only.
+    - apply (col_at_ok ELECTRICIDAD data t Hn).
+    - apply (el_col_l data).
+    - apply nth_Forall; [exact Hdn|apply Qcle_refl].
+    - cbn. now apply colsum_zg.
+    - apply nth_Forall; [exact Hdz|apply zg_0].
+    - cbn. apply colsum_absent. exact Hnc.
+  Qed.
+
+  Lemma lm_del_grid : a_del_grid x' <= a_del_grid x.
+  Proof. unfold a_del_grid. rewrite lm_ann_x, lm_ann_x'. apply qsum_map_le. intros t _. apply (lm_step t). Qed.
+  Lemma lm_exp : a_exp_ne x + a_exp_grid x <= a_exp_ne x' + a_exp_grid x'.
+  Proof. rewrite !a_exp_total, lm_ann_x, lm_ann_x'. apply qsum_map_le. intros t _. apply (lm_step t). Qed.
+  Lemma lm_exp_chp : a_exp_src x EL_COGEN = 0 /\ a_exp_src x' EL_COGEN = 0.
+  Proof. unfold a_exp_src. rewrite lm_ann_x, lm_ann_x'. split; apply qsum_map_zero; intros t _; apply (lm_step t). Qed.
+  Lemma lm_used_pv : a_used_src x EL_INSITU <= a_used_src x' EL_INSITU.
+  Proof. unfold a_used_src. rewrite lm_ann_x, lm_ann_x'. apply qsum_map_le. intros t _. apply (lm_step t). Qed.
+  Lemma lm_grid_eq : a_del_grid x = a_epus x - a_used_src x EL_INSITU /\ a_del_grid x' = a_epus x - a_used_src x' EL_INSITU.
+  Proof.
+    unfold a_del_grid, a_epus, a_used_src. rewrite !lm_ann_x, !lm_ann_x'. split; rewrite <- qsum_map_sub; apply qsum_map_ext; intros t _; apply (lm_step t).
+  Qed.
+  Lemma lm_cgnus : a_cgnus x' = a_cgnus x.
+  Proof. unfold a_cgnus. rewrite lm_ann_x, lm_ann_x'. reflexivity. Qed.
+
+  Lemma lm_thermal y (Hy : forall s, In s (cx_steps y) -> exists c, s = srl c /\ el_col c) j :
+    j = PS_TERMOSOLAR \/ j = PS_EAMBIENTE -> a_used_src y j = 0.
+  Proof.
+    intros Hj. unfold a_used_src, ann, vec. apply qsum_map_zero. intros s Hs. destruct (Hy s Hs) as (c & -> & [T E]).
+    unfold s_used_src, srl. destruct Hj as [->| ->]; cbn [snd step_out so_src so_uts so_uea used_src_f c_src]; rewrite ?T, ?E;
+      destruct (qltb (qfrac 1 1000) (c_p c)); unfold Qcdiv; ring.
+  Qed.
+
+  Lemma lm_used_on : used_on ELECTRICIDAD true data = a_used_src x EL_INSITU
+                     /\ used_on ELECTRICIDAD true (data ++ [EProd i EL_INSITU dv cm]) = a_used_src x' EL_INSITU.
+  Proof.
+    assert (E1 : forall s, In s (cx_steps x) -> exists c, s = srl c /\ el_col c).
+    { intros s Hs. rewrite lm_steps_x in Hs. apply in_map_iff in Hs as (t & <- & _). eexists. split; [reflexivity|apply (el_col_l data)]. }
+    assert (E2 : forall s, In s (cx_steps x') -> exists c, s = srl c /\ el_col c).
+    { intros s Hs. rewrite lm_steps_x' in Hs. apply in_map_iff in Hs as (t & <- & _). eexists. split; [reflexivity|]. apply el_col_bump, (el_col_l data). }
+    unfold used_on. fold x x'. split.
+    - rewrite (lm_thermal x E1 PS_TERMOSOLAR (or_introl eq_refl)), (lm_thermal x E1 PS_EAMBIENTE (or_intror eq_refl)). ring.
+    - rewrite (lm_thermal x' E2 PS_TERMOSOLAR (or_introl eq_refl)), (lm_thermal x' E2 PS_EAMBIENTE (or_intror eq_refl)). ring.
+  Qed.
+
+  Variables (fs : list Factor) (g phi : RNC) (k : Qc).
+  Hypothesis Hreg : regular fs ELECTRICIDAD (cx_srcs x) g (fsrc_reg phi).
+  Hypothesis Hreg' : regular fs ELECTRICIDAD (cx_srcs x') g (fsrc_reg phi).
+  Hypothesis Hg : rnc_nonneg g.
+  Hypothesis Hg1 : ren g <= 1.
+  Hypothesis Hphi : rnc_nonneg phi.
+  Hypothesis Hk : 0 <= k <= 1.
+
+  (** with load matching and no cogeneration for electricity: more on-site production does not raise the carrier's
+      non-renewable primary energy nor its emissions (steps A and B), and does not lower its renewable primary energy *)
+  Theorem pv_monotone_carrier_lm :
+    exists p p', weighted_parts fs x = Ok p /\ weighted_parts fs x' = Ok p'
+      /\ nren (we_a (we_of_parts k p')) <= nren (we_a (we_of_parts k p))
+      /\ co2 (we_a (we_of_parts k p')) <= co2 (we_a (we_of_parts k p))
+      /\ nren (we_b (we_of_parts k p')) <= nren (we_b (we_of_parts k p))
+      /\ co2 (we_b (we_of_parts k p')) <= co2 (we_b (we_of_parts k p))
+      /\ ren (we_a (we_of_parts k p)) <= ren (we_a (we_of_parts k p'))
+      /\ a_del_grid x' <= a_del_grid x.
+  Proof.
+    destruct (carrier_closed fs ELECTRICIDAD true data g phi Hreg Hn Hd k) as (p & Wp & Ap & Bp & _).
+    destruct (carrier_closed fs ELECTRICIDAD true (data ++ [EProd i EL_INSITU dv cm]) g phi Hreg' (nonneg_data' data i dv cm Hn Hdn) (dom_data' data i dv cm Hd Hdz) k)
+      as (p' & Wp' & Ap' & Bp' & _).
+    exists p, p'. split; [exact Wp|]. split; [exact Wp'|].
+    rewrite Ap, Ap', Bp, Bp'. unfold NA, XCHP. destruct lm_used_on as [O O']. rewrite O, O'. fold x x'.
+    destruct lm_grid_eq as [GE GE']. destruct lm_exp_chp as [X X']. pose proof lm_exp as M3. pose proof lm_used_pv as M5. pose proof lm_cgnus as M4.
+    pose proof lm_del_grid as M1. rewrite M4, X, X'.
+    destruct Hg as (G1 & G2 & G3), Hphi as (P1 & P2 & P3), Hk as [K0 K1].
+    assert (M2 : (0:Qc) <= 0) by apply Qcle_refl.
+    revert M1 M3 M5 GE GE'.
+    generalize (a_del_grid x) (a_del_grid x') (a_exp_ne x + a_exp_grid x) (a_exp_ne x' + a_exp_grid x')
+               (a_used_src x EL_INSITU) (a_used_src x' EL_INSITU)
+               (a_exp_src x EL_INSITU + a_exp_src x PS_TERMOSOLAR + a_exp_src x PS_EAMBIENTE)
+               (a_exp_src x' EL_INSITU + a_exp_src x' PS_TERMOSOLAR + a_exp_src x' PS_EAMBIENTE) (a_cgnus x) (a_epus x).
+    intros dg dg' ex ex' up up' xi xi' cg U M1 M3 M5 GE GE'.
+    destruct g as [gr gn gc], phi as [pr pn pc]. cbn [ren nren co2 rsub radd rscale one] in *.
+    assert (K00 : (0:Qc) <= 0) by apply Qcle_refl. assert (K01 : (0:Qc) <= 1) by qlra.
+    repeat split.
+    - pose proof (mono_lin dg dg' 0 0 ex ex' cg up up' xi xi' gn pn 0 M1 M2 M3 G2 P2 K00 K01) as L. ring_simplify in L. ring_simplify. exact L.
+    - pose proof (mono_lin dg dg' 0 0 ex ex' cg up up' xi xi' gc pc 0 M1 M2 M3 G3 P3 K00 K01) as L. ring_simplify in L. ring_simplify. exact L.
+    - exact (mono_lin dg dg' 0 0 ex ex' cg up up' xi xi' gn pn k M1 M2 M3 G2 P2 K0 K1).
+    - exact (mono_lin dg dg' 0 0 ex ex' cg up up' xi xi' gc pc k M1 M2 M3 G3 P3 K0 K1).
+    - subst dg dg'. apply le_of_diff.
+      replace ((U - up') * gr + up' * 1 + cg * gr - 0 * pr - ((U - up) * gr + up * 1 + cg * gr - 0 * pr)) with ((up' - up) * (1 - gr)) by ring.
+      apply Qc_le_0_mul; qlra.
+    - exact M1.
+  Qed.
+End AnnualLm.
